@@ -32,7 +32,7 @@ def flat(s):
     return re.sub(r"\s+", "", s)
 
 
-from rules.common import flatp, has, same  # noqa: E402
+from rules.common import flatp, has, same, xquotes  # noqa: E402
 
 
 def r1_default_to(ctx, prog, cfg):
@@ -232,7 +232,7 @@ def r4_generators(ctx):
             r.viol("R4:%s#defaulted" % name, "the defaulted-locales alternative is not built from `%s.get(&locale.top_locale_name)` as `| Enum::<key>` for every key" % var, file=fn.file, line=fn.line)
         else:
             r.inst(name + "#defaulted", "%s.get(&locale.top_locale_name) -> `| Enum::k` for each k" % var)
-        qs = [flat(tok_text(q["tokens"])) for q in quotes_in(fn.body)]
+        qs = [flat(tok_text(q["tokens"])) for q in xquotes(fn.body)]
         arms = [q for q in qs if re.match(r"^#enum_ident::#(ident|locale_key|top_locale)(\(#translations_key\))?(#defaulted)?=>", q)]
         missing = [q for q in arms if "#defaulted=>" not in q and "(#translations_key)=>" not in q]
         if not arms or missing:
